@@ -23,7 +23,8 @@ RULE = (
     "tasks) every registered connection shows r=1 w=1 — the peer observes end-of-stream; close() reports errs=0."
 )
 ASSUMPTIONS = ["OS sockets, the tokio scheduler and timing ('shortly afterwards') are observed on the enumerated grid, not modelled",
-               "a connection whose handshake is still pending is the recorded finding D14"]
+               "on the pinned tree a connection whose handshake was still pending survived close/drop (finding D14, repaired)"]
+# history prefixes on the real runtime: bound only / accepted / traffic / pending handshake / CONNECTED OUT (through connect())
 TRUSTED = ["Arc/Drop semantics as modelled by the ownership graph (Model/Lifecycle.lean)"]
 SHRINK = False
 IMPL_ENV = netgen.net_env()
@@ -99,7 +100,8 @@ def net_case(t, tr, prefix, how, n):
     if "accepted" in prefix:
         ops += ["rawwait 1 eof", "rawwait 2 eof"]
     if "pending-handshake" in prefix:
-        ops.append("rawwait 5 open")
+        # the handshake task ends with its listener (fix D14): this peer, too, observes end-of-stream
+        ops.append("rawwait 5 eof")
     c = Case(f"{t}:{how}:net-{tr}-{'+'.join(prefix) or 'bound'}#{n}", "net", ops, [f"net-{how}"])
     c.expect = ("net", t, prefix, how)
     return c
@@ -120,10 +122,32 @@ def contended_case(t, source, how, n):
     else:
         ops += [f"rawmsg 1 {msg}", "pause 150"]
     ops.append("close 1" if how == "close" else "dropsock 1")
-    # (only the peer that is REGISTERED for certain is judged: whether the second one had got as far as registration
-    # when the socket went away is a race — if not, it is the pending-handshake situation of finding D14)
+    # (whether the second peer had got as far as registration when the socket went away is a race; registered or
+    # still in its handshake, it must observe end-of-stream as well)
     ops += ["probegone ep#0", "rawwait 1 eof"]
+    if source == "registering":
+        ops.append("rawwait 2 eof")
     c = Case(f"{t}:{how}:net-contended-{source}#{n}", "net", ops, [f"net-{how}"])
+    c.expect = ("net", t, ["accepted"], how)
+    return c
+
+
+def out_case(t, tr, how, mixed, n):
+    """history prefix `connected out`: the socket CONNECTED to a listener of the peer (through `connect()`, the real
+    transport and handshake); optionally it also has a bound endpoint with an accepted peer"""
+    peer = netgen.PEER[t]
+    ops = [f"sock 1 {t}", "monitor 1", f"connectout 1 {tr} 7 {peer}"]
+    if mixed:
+        ops += ["bind 1 tcp4", "rawconn 1 ep#0", f"rawhs 1 {peer}", "rawwait 1 hs", "events 1 3"]
+    else:
+        ops += ["events 1 1"]
+    if t == "PULL":
+        ops += ["rawmsg 7 6869", "recv 1"]
+    ops.append("close 1" if how == "close" else "dropsock 1")
+    ops.append("rawwait 7 eof")
+    if mixed:
+        ops += ["probegone ep#0", "rawwait 1 eof"]
+    c = Case(f"{t}:{how}:net-{tr}-connected-out{'+accepted' if mixed else ''}#{n}", "net", ops, [f"net-{how}"])
     c.expect = ("net", t, ["accepted"], how)
     return c
 
@@ -131,6 +155,12 @@ def contended_case(t, source, how, n):
 def cases(tier, rng):
     out = gen.corpus(ID)
     n = 0
+    for t in (["PULL", "PUB", "DEALER", "REQ", "SUB"] if tier == "quick" else netgen.TYPES9):
+        for tr in [x for x in netgen.transports() if x in ("tcp4", "ipc")]:
+            for how in ("close", "drop"):
+                for mixed in (False, True):
+                    out.append(out_case(t, tr, how, mixed, n))
+                    n += 1
     for t in (["PULL", "ROUTER", "REP"] if tier == "quick" else ["PULL", "SUB", "DEALER", "ROUTER", "REP", "XPUB"]):
         for source in ("registering", "data"):
             for how in ("close", "drop"):
@@ -184,10 +214,9 @@ def oracle(case, lines):
         h = [l for op, l in res if op == f"halves {p}"][-1]
         if h != "halves r=1 w=1":
             return f"after {how} the registered peer {p} does not observe end-of-stream: {h} (history: {flags or ['attached']})"
-    if "pending-handshake" in flags:
-        h = [l for op, l in res if op == "halves 3"][-1]
-        if h != "halves r=1 w=1":
-            return f"after {how} the connection whose handshake was still pending stays open: {h}"
+    # (a handshake in progress in THIS engine is a future the harness itself holds — there is no accept loop here —
+    # so it is the harness's to drop; what the library does with the handshakes ITS accept loops started is judged
+    # on the real runtime: the `net` cases with `pending-handshake`)
     return None
 
 
